@@ -131,8 +131,35 @@ def dense_chain(psi, phys=None):
             cur = np.tensordot(cur, Cd, axes=(cur.ndim - 1, 0))
         nxt = arrs[n] if nr == 1 else arrs[n].transpose(0, 1, 3, 2)
         cur = np.tensordot(cur, nxt, axes=(cur.ndim - 1, 0))
-    if C is not None and psi.pC[0] < 0:
-        pass
+    if C is not None and psi.pC[0] < 0:          # central block attached before the first site
+        lc = list(C.get_legs(native=True))
+        u = _bond_union(lc[1], legs[0][0].conj())
+        Cd0 = reassemble(C, [lc[0], u])
+        first = reassemble(tens[0], [u.conj()] + legs[0][1:])
+        first = first if nr == 1 else first.transpose(0, 1, 3, 2)
+        # redo the chain with the embedded first tensor
+        cur = np.tensordot(Cd0, first, axes=(1, 0))
+        for n in range(1, N):
+            nxt = arrs[n] if nr == 1 else arrs[n].transpose(0, 1, 3, 2)
+            cur = np.tensordot(cur, nxt, axes=(cur.ndim - 1, 0))
+    if C is not None and psi.pC[1] > N - 1:      # central block attached after the last site
+        lc = list(C.get_legs(native=True))
+        u = _bond_union(legs[N - 1][2], lc[0].conj())
+        CdN = reassemble(C, [u.conj(), lc[1]])
+        if u.t != legs[N - 1][2].t or u.D != legs[N - 1][2].D:
+            # re-embed the last tensor into the union leg
+            ll = list(legs[N - 1]); ll[2] = u
+            last = reassemble(tens[N - 1], ll)
+            last = last if nr == 1 else last.transpose(0, 1, 3, 2)
+            cur = arrs[0] if nr == 1 else arrs[0].transpose(0, 1, 3, 2)
+            if N == 1:
+                cur = last
+            else:
+                for n in range(1, N - 1):
+                    nxt = arrs[n] if nr == 1 else arrs[n].transpose(0, 1, 3, 2)
+                    cur = np.tensordot(cur, nxt, axes=(cur.ndim - 1, 0))
+                cur = np.tensordot(cur, last, axes=(cur.ndim - 1, 0))
+        cur = np.tensordot(cur, CdN, axes=(cur.ndim - 1, 0))
     # first and last virtual legs have dimension one
     assert cur.shape[0] == 1 and cur.shape[-1] == 1, cur.shape
     cur = cur.reshape(cur.shape[1:-1])
